@@ -13,9 +13,11 @@ func init() {
 		ID: "C15",
 		Explanation: "Decides a frame argument for history independence: (C15.1) no function reachable from Transcoder.ServeHTTP writes - outside the construction of a fresh object - any field, map or slice element of the configuration graph rooted at Transcoder (all struct types reachable from its fields), nor any package-level variable; the same query rooted at NewTranscoder must find the registration writes (positive control); " +
 			"(C15.2) the only objects that survive an RPC, the pooled buffers and pooled (de)compressors, are reset on every path between leaving the pool and first use, and their return to the pool is deferred on every path; the sync.Pools are touched only by those wrappers; " +
-			"(C15.3) the buffer pool refuses buffers above a constant capacity; (C15.4) no sync.Once / sync.Map / atomic state, no package-level variable written after init. " +
+			"(C15.3) the buffer pool refuses buffers above a constant capacity; (C15.4) no sync.Once / sync.Map / atomic state, no package-level variable written after init; " +
+			"(C15.5) the outcome is a function of the request at all: no request-time loop over a Go map (whose iteration order the runtime randomises per loop) lets that order reach the outcome - its iterations commute (writes keyed one-to-one by the entry's key, idempotent set insertions, deletions, counters, existence tests) or the keys are sorted first. " +
 			"Not decided: behaviour that depends on buffer capacity, state inside connect/protobuf/gzip, what a backend handler keeps.",
-		Assumptions: []string{"sync.Pool returns either a previously Put object or a New one", "(*bytes.Buffer).Reset empties the buffer; Compressor/Decompressor.Reset re-initialises state as documented by connect"},
+		Assumptions: []string{"sync.Pool returns either a previously Put object or a New one", "(*bytes.Buffer).Reset empties the buffer; Compressor/Decompressor.Reset re-initialises state as documented by connect",
+			"C15.5: the keys of an http.Header handed to the library are in canonical form (as net/http produces them), so that Header.Set/Add/Del under distinct keys touch distinct entries; protoreflect's Range over message fields is not examined"},
 		Run:         runC15,
 	})
 }
@@ -445,6 +447,67 @@ func runC15(c *Ctx) {
 	if bad == 0 {
 		c.OK("C15.4", "package", "no-cross-request-state", token.NoPos, "no sync.Once/sync.Map/atomic cells and no package variable stores outside init in the root package")
 	}
+	runC15MapOrder(c)
+}
+
+// runC15MapOrder: rule C15.5.
+func runC15MapOrder(c *Ctx) {
+	p := c.P
+	c.Rule("C15.5", "no request-time loop over a Go map lets the randomised iteration order reach the outcome of the RPC", 4)
+	reach := p.RequestTimeReach()
+	for _, fn := range SortedFuncs(reach) {
+		if !p.inScope(fn) {
+			continue
+		}
+		loops := mapLoops(fn)
+		ord := map[string]int{}
+		for _, l := range loops {
+			c.CountSite()
+			what := "range " + aliasTypeString(types.TypeString(l.rng.X.Type(), shortQual))
+			ord[what]++
+			construct := what
+			if ord[what] > 1 {
+				construct += "|#" + itoa(ord[what])
+			}
+			issues, facts := p.analyseMapLoop(l)
+			if len(issues) == 0 {
+				c.OK("C15.5", FuncName(fn), construct, l.rng.Pos(), "the iterations of this loop over a map commute", facts...)
+				continue
+			}
+			for _, is := range issues {
+				pos := is.pos
+				if pos == token.NoPos {
+					pos = l.rng.Pos()
+				}
+				c.Bad("C15.5", FuncName(fn), construct+"|"+is.construct, pos,
+					"the result of this loop over a map depends on Go's randomised iteration order: "+is.what+"; the same request then has different outcomes from run to run", facts...)
+			}
+		}
+		for _, call := range unsortedMapIterators(fn) {
+			c.CountSite()
+			c.Bad("C15.5", FuncName(fn), "call "+CalleeName(call), call.Pos(),
+				"an iterator over a map's entries is consumed in map order (not handed to slices.Sorted*): the randomised order can reach the outcome")
+		}
+	}
+	// positive control: the same analysis, applied to construction-time code (where the order of
+	// a map loop can only select which configuration error is reported, before any request),
+	// recognises an order-dependent loop
+	nCtl, nAll := 0, 0
+	ctor := p.MustFunc("NewTranscoder")
+	for _, fn := range SortedFuncs(p.Reach(ctor)) {
+		if !p.inScope(fn) || reach[fn] {
+			continue
+		}
+		for _, l := range mapLoops(fn) {
+			nAll++
+			if is, _ := p.analyseMapLoop(l); len(is) > 0 {
+				nCtl++
+			}
+		}
+	}
+	c.Check(nCtl >= 1, "C15.5", "NewTranscoder", "positive-control", ctor.Pos(),
+		"the same analysis classifies "+itoa(nCtl)+" of the "+itoa(nAll)+" construction-time map loops under NewTranscoder as order-dependent (they pick which configuration error is reported; not request time), so it can see such loops",
+		"positive control failed: the analysis finds no order-dependent loop among the "+itoa(nAll)+" construction-time map loops under NewTranscoder")
 }
 
 func isSyncState(t types.Type) bool {
